@@ -203,7 +203,7 @@ def strip_ws(canon):
 
 def wrap_w(out):
     """the nodes xq printed, as the content of one element"""
-    return b"<w>" + out + b"</w>"
+    return b'<w xmlns:p="urn:p">' + out + b"</w>"
 
 
 def canon_batch(items):
